@@ -612,7 +612,7 @@ func (f *Formatter) formatReturnStatement(stmt *ast.ReturnStatement) string {
 		// that drops infix operators and re-encodes literals.
 		expression := f.formatExpression(stmt.ReturnExpression).String()
 		// Without the parenthesis an expression like `(a) && b` would be read as `return (a)` followed by garbage
-		if suffix == "" && strings.HasPrefix(expression, "(") {
+		if suffix == "" && startsWithParenthesis(stmt.ReturnExpression) {
 			if prefix == " " {
 				buf.WriteString(" ")
 			}
@@ -635,6 +635,19 @@ func (f *Formatter) formatReturnStatement(stmt *ast.ReturnStatement) string {
 	buf.WriteString(";")
 
 	return buf.String()
+}
+
+// startsWithParenthesis reports whether the first token of the printed expression is a left parenthesis
+func startsWithParenthesis(expr ast.Expression) bool {
+	switch t := expr.(type) {
+	case *ast.GroupedExpression:
+		return true
+	case *ast.InfixExpression:
+		return startsWithParenthesis(t.Left)
+	case *ast.PostfixExpression:
+		return startsWithParenthesis(t.Left)
+	}
+	return false
 }
 
 // Format synthetic statement
